@@ -301,6 +301,9 @@ def handle (j : Json) : Except String Json := do
       | none => stopped := true
     pure (Json.mkObj [("steps", jArr labels), ("docs", jArr docs), ("stopped", jBool stopped),
       ("state", jArr (st.params.map entryJson))])
+  | "valid_names" =>
+    let ns ← strList (← j.getObjVal? "names")
+    pure (Json.mkObj [("valid", jArr (ns.map fun n => jBool (Params.validFileName n)))])
   | "roundtrip" =>
     -- set a value, dump, read into a fresh default table
     let algos ← strList (← j.getObjVal? "algos")
